@@ -93,6 +93,8 @@ def fmt_atom(fn, a):
         return "%s %s %s" % (fmt_key(fn, a[1]), a[2], fmt_key(fn, a[3]))
     if a[0] == "ev":
         return "event %s" % (a[1:],)
+    if a[0] == "alloc":
+        return "%s = %s" % (fmt_key(fn, a[1]), fmt_key(fn, a[2]))
     return str(a)
 
 
@@ -236,6 +238,8 @@ def written_vars(prog, fn, e, out=None, top=True):
         params = cal["params"] if cal else None
         for i, a in enumerate(e[2]):
             written_vars(prog, fn, a, out, False)
+            if not ir.arg_is_pointer(e, i):
+                continue
             v = ir.base_var(fn, a)
             if v is None:
                 continue
@@ -308,6 +312,8 @@ def param_writes(prog):
                             summ[fn].add(pidx[v])
                 elif t == "c":
                     for i, a in enumerate(n[2]):
+                        if not ir.arg_is_pointer(n, i):
+                            continue
                         v = ir.base_var(fn, a)
                         if v in pidx:
                             fl.append((pidx[v], n[1], i))
@@ -401,6 +407,87 @@ def forward_must(g, init, transfer, edge=None, follow=None):
     return IN
 
 
+PURE_CALLS = {"bn_bits", "bn_size_bin", "bn_size_raw", "bn_size_str", "bn_is_zero", "bn_is_even", "bn_sign", "bn_get_bit",
+              "fp_bits", "fb_bits", "util_bits_dig", "strlen", "ep_param_level", "ep_curve_is_endom", "ep_curve_is_pairf",
+              "ep_curve_is_super", "ep_curve_is_ctmap", "ep_curve_opt_a", "ep_curve_opt_b", "ep_curve_embed", "ep_param_embed",
+              "eb_curve_is_kbltz", "fp_prime_get_mod8", "fp_prime_get_2ad", "fp_param_get", "md_size", "log_radix", "valid_radix",
+              "fb_size_str", "fp_size_str", "ep_size_bin", "ep2_size_bin", "ep3_size_bin", "ep4_size_bin", "ep8_size_bin",
+              "eb_size_bin", "ed_size_bin", "fp2_size_bin", "fp12_size_bin", "abs", "alloca", "__builtin_alloca", "_alloca",
+              "malloc", "calloc"}
+
+
+ALLOC_CALLS = ("alloca", "__builtin_alloca", "_alloca", "malloc", "calloc")
+
+
+def directly_assigned(fn, e):
+    """variables whose own value the element assigns (not stores through them)"""
+    out = set()
+    for n in ir.walk(fn, e):
+        t = n[0]
+        if t == "=" and n[1][0] == "v":
+            out.add(n[1][1])
+        elif t == "o=" and n[2][0] == "v":
+            out.add(n[2][1])
+        elif t == "u" and n[1] in ("++", "--", "p++", "p--") and n[2][0] == "v":
+            out.add(n[2][1])
+        elif t == "d":
+            out.add(n[1])
+        elif t == "u" and n[1] == "&" and n[2][0] == "v":
+            out.add(n[2][1])
+    return out
+
+
+def _pure_key(k):
+    if not isinstance(k, tuple):
+        return True
+    if k and k[0] == "c":
+        if not (isinstance(k[1], str) and k[1] in PURE_CALLS):
+            return False
+        return all(_pure_key(a) for a in k[2])
+    if k and k[0] in ("=", "?stmt", "r?", "..."):
+        return False
+    if k and k[0] == "u" and k[1] in ("++", "--", "p++", "p--"):
+        return False
+    return all(_pure_key(x) for x in k[1:] if isinstance(x, tuple))
+
+
+def assignment_atoms(fn, e):
+    """value atoms established by `X = E` / `T X = E` when E is a constant or
+    a pure expression not mentioning X"""
+    out = []
+    t = e[0]
+    if t == "d" and e[2] is not None:
+        lk, rhs = ("v", e[1]), e[2]
+    elif t == "=":
+        lk, rhs = key(fn, e[1]), e[2]
+        # chained assignment a = b = E: both receive E
+        inner = ir.strip_casts(rhs)
+        while isinstance(inner, list) and inner and inner[0] == "=":
+            out += assignment_atoms(fn, inner)
+            rhs = inner[2]
+            inner = ir.strip_casts(rhs)
+        if not (isinstance(lk, tuple) and lk[0] in ("v", "m", "x", "u")) or not _pure_key(lk):
+            return out
+    elif t == "ds":
+        for a in e[1:]:
+            out += assignment_atoms(fn, a)
+        return out
+    else:
+        return out
+    rk = key(fn, rhs)
+    if not isinstance(rk, tuple) or not _pure_key(rk):
+        return out
+    if key_vars(lk) & key_vars(rk):
+        return out
+    if rk[0] == "c" and rk[1] in ALLOC_CALLS and lk[0] == "v":
+        out.append(("alloc", lk, rk))
+    elif rk[0] == "i":
+        out.append(("cmp", lk, "==", rk[1]))
+    elif rk[0] in ("v", "m", "x", "b", "c", "u"):
+        out.append(("rel", lk, "==", rk))
+    return out
+
+
 class _Universe(frozenset):
     """state of a path on which a THROW has already been executed (the error
     is reported): every fact holds vacuously; identity of the join"""
@@ -416,7 +503,7 @@ class Facts:
     """Standard FACTS analysis: branch atoms, killed by writes to their
     variables; rules may add event facts through `gen`."""
 
-    def __init__(self, prog, g, gen=None, extra_kill=None, init=(), edge_gen=None, mark_thrown=True, follow=None):
+    def __init__(self, prog, g, gen=None, extra_kill=None, init=(), edge_gen=None, mark_thrown=True, follow=None, assign_atoms=True):
         self.prog = prog
         self.g = g
         self.fn = g.fn
@@ -426,6 +513,7 @@ class Facts:
         self.mark_thrown = mark_thrown
         self._wcache = {}
         self.follow = follow
+        self.assign_atoms = assign_atoms
         self.IN = forward_must(g, init, self._transfer, self._edge, follow)
 
     def writes(self, node):
@@ -446,12 +534,29 @@ class Facts:
         if node.kind != "el":
             return s
         w = self.writes(node)
+        self.pre = s
         if self.extra_kill:
             s = self.extra_kill(node, s)
         if w:
-            s = frozenset(a for a in s if not (atom_vars(a) & w))
+            dw = None
+            keep = []
+            for a in s:
+                if a[0] == "alloc":
+                    # the size of an allocation survives writes *through* the pointer
+                    if dw is None:
+                        dw = directly_assigned(self.fn, node.el.e)
+                    if a[1][1] in dw or (key_vars(a[2]) & w):
+                        continue
+                    keep.append(a)
+                elif not (atom_vars(a) & w):
+                    keep.append(a)
+            s = frozenset(keep)
+        if self.assign_atoms:
+            add = assignment_atoms(self.fn, node.el.e)
+            if add:
+                s = s | frozenset(add)
         if self.gen:
-            add = self.gen(node, s)
+            add = self.gen(node, s, self.pre)
             if add:
                 s = s | frozenset(add)
         return s
